@@ -117,6 +117,27 @@ func c04Prop(st *CaseStats, fam int) func(t *rapid.T) {
 		if d := DiffObs(orig, om, AllFacets); d != "" {
 			t.Fatalf("case %s %s:\n  original vs memory-loaded: %s", sc, c.Desc, d)
 		}
+		// a third backing: memory that is a READ-ONLY mapping of the file (reading and re-persisting must not write to it)
+		if len(bs) < 1<<22 {
+			mm, err := ctx.LoadMmap(bs)
+			if err != nil {
+				t.Fatalf("case %s %s: loading from a read-only mapping: %v", sc, c.Desc, err)
+			}
+			omm, err := Observe(mm, ProbeFields, AllFacets)
+			if err != nil {
+				t.Fatalf("case %s %s: observing the segment loaded from a read-only mapping: %v", sc, c.Desc, err)
+			}
+			if d := DiffObs(orig, omm, AllFacets); d != "" {
+				t.Fatalf("case %s %s:\n  original vs loaded from a read-only mapping: %s", sc, c.Desc, d)
+			}
+			again, err := Persist(mm)
+			if err != nil {
+				t.Fatalf("case %s %s:\n  re-persisting the segment loaded from a read-only mapping: %v", sc, c.Desc, err)
+			}
+			if !bytes.Equal(again, bs) {
+				t.Fatalf("case %s %s:\n  the segment loaded from a read-only mapping persists other bytes (first difference at %d)", sc, c.Desc, firstDiff(again, bs))
+			}
+		}
 		of, err := Observe(fil, ProbeFields, AllFacets)
 		if err != nil {
 			t.Fatalf("case %s %s: observing file-loaded: %v", sc, c.Desc, err)
